@@ -1105,11 +1105,21 @@ where
           _ => unreachable!(),
         };
 
-        match writer
+        // If the command queue is full, leave our waker for the Writer and then try
+        // once more: the Writer may have made room after our first attempt, but
+        // before our waker was in place. Then it has woken nobody.
+        let send_result = match writer
           .cc_upload
           .try_send(WriterCommand::WaitForAcknowledgments {
             all_acked: ack_wait_sender,
           }) {
+          Err(TrySendError::Full(wc)) => {
+            *writer.cc_upload_waker.lock().unwrap() = Some(cx.waker().clone());
+            writer.cc_upload.try_send(wc)
+          }
+          other => other,
+        };
+        match send_result {
           Ok(()) => {
             *self = AsyncWaitForAcknowledgments::Waiting { ack_wait_receiver };
             #[cfg(rustdds_verif)]
@@ -1128,8 +1138,7 @@ where
               ack_wait_receiver,
               ack_wait_sender,
             };
-            // The command queue is full. Writer wakes us when it has made room.
-            *writer.cc_upload_waker.lock().unwrap() = Some(cx.waker().clone());
+            // The command queue is still full. Writer wakes us when it has made room.
             Poll::Pending
           }
           Err(TrySendError::Full(_other_writer_command)) =>
